@@ -136,6 +136,13 @@ func newTaintEngine(p *Prog) *taintEngine {
 	t := &taintEngine{p: p, wire: map[string]string{}, wireAllocs: map[ssa.Value]string{}, fieldTaint: map[string]tset{},
 		memo: map[ssa.Value]tset{}, busy: map[ssa.Value]bool{}, retMemo: map[*ssa.Function][]tset{}, retBusy: map[*ssa.Function]bool{}, wireDecoders: map[string]map[*ssa.Function]bool{}}
 	t.findWire()
+	// records that a standard-library reader decodes from the stream it is given: the sizes in them
+	// are as much the sender's as a field read with binary.Read
+	for name, how := range map[string]string{"archive/tar.Header": "(*archive/tar.Reader).Next"} {
+		if _, ok := t.wire[name]; !ok {
+			t.wire[name] = how
+		}
+	}
 	t.propagateFields()
 	return t
 }
@@ -741,12 +748,21 @@ func (t *taintEngine) comparisonBlocks(fn *ssa.Function, g map[ssa.Value]bool, k
 		}
 		switch bo.Op {
 		case token.LSS, token.LEQ, token.GTR, token.GEQ:
+			if kind == "alloc" {
+				// "fits in 32 bits" is no bound on an allocation
+				if k, isK := constInt(bo.Y); isK && k >= 1<<30 {
+					continue
+				}
+				if k, isK := constInt(bo.X); isK && k >= 1<<30 {
+					continue
+				}
+			}
 			if inGroup(bo.X) || inGroup(bo.Y) {
 				out[b.Index] = true
 			}
 		case token.EQL, token.NEQ:
 			// for a size, (in)equality with the constant 0 bounds nothing; for a divisor it is the check
-			if kind == "alloc" && (isIntConst(bo.X, 0) || isIntConst(bo.Y, 0)) {
+			if (kind == "alloc" || kind == "narrow") && (isIntConst(bo.X, 0) || isIntConst(bo.Y, 0)) {
 				continue
 			}
 			if inGroup(bo.X) || inGroup(bo.Y) {
